@@ -303,6 +303,44 @@ def _c19_set_recursive(ctx):
     return _set_with_recursive_member(a) or _set_with_recursive_member(o)
 
 
+def components_of_foreign_refs(spec):
+    """a type included with COMPONENTS OF from another module has a component whose type is a reference that
+    does not resolve to the same definition from the including module"""
+    for m in spec.modules:
+        for name, t in m.types:
+            for x in (t.raw_refs or []):
+                try:
+                    xt, xm = spec.lookup(x, m.name)
+                except KeyError:
+                    continue
+                if xm == m.name:
+                    continue
+                for mem in (xt.root or []):
+                    for n in mem.ty.walk():
+                        if n.kind != 'REF':
+                            continue
+                        try:
+                            if spec.lookup(n.ref, m.name)[1] != spec.lookup(n.ref, xm)[1]:
+                                return True
+                        except KeyError:
+                            return True
+    return False
+
+
+@finding('C19', 'components-of-foreign-refs')
+def _c19_components_of_foreign(ctx):
+    # codecs/compiler.py pre_process_components_of_expand_members copies the member descriptors of the
+    # referenced type into the including module as text; a type reference inside them is then looked up in the
+    # including module, where it is not visible (CompileError "Type 'Ext1' not found in module 'M'")
+    from . import jsonio
+    try:
+        a = jsonio.spec_dec(ctx.case['arranged'])
+        o = jsonio.spec_dec(ctx.case['spec'])
+    except Exception:
+        return False
+    return components_of_foreign_refs(a) or components_of_foreign_refs(o)
+
+
 def _xer_recursive_of_element(spec):
     from . import arrange
     for m in spec.modules:
